@@ -461,3 +461,33 @@ func TestRegressionEciesShortSymmetricPart(t *testing.T) {
 		}
 	}
 }
+
+// Shrunk failure (TestSequences, head delivery via the fork route): a fork answer holding one header whose height is
+// one the node has no block for (0; equally any height below what a fast-synced node stores) and that is not above
+// the node's head. ForkResolver.checkForkSize compares the fork with the own chain block by block and called
+// IsEmpty() on the nil result of Blockchain.GetBlockByHeight.
+func TestRegressionForkBelowStoredChain(t *testing.T) {
+	w, a, b := fixedWorld(t, 3)
+	for i := 0; i < 2; i++ {
+		blk := a.Propose().Block
+		for _, r := range []*sim.Replica{a, b} {
+			if err := r.AddBlock(blk); err != nil {
+				t.Fatalf("setup: %v", err)
+			}
+		}
+		w.Advance(20 * time.Second)
+	}
+	blk := reencode(t, a.Propose().Block)
+	blk.Header.ProposedHeader.Height = 0
+	blk = reencode(t, blk)
+	if !blk.IsValid() || b.Chain.GetBlockByHeight(0) != nil {
+		t.Fatalf("setup: block does not pass the gate / the node stores a block at height 0")
+	}
+	var err error
+	mustNotPanic(t, "ForkResolver.processBlocks(header with height 0)", func() {
+		err = consensus.NewForkResolver(nil, nil, b.Chain, collector.NewStatsCollector()).VerifProcessBlocks([]types.BlockBundle{{Block: blk}})
+	})
+	if err == nil {
+		t.Fatalf("a fork starting below the stored chain was accepted")
+	}
+}
